@@ -52,6 +52,20 @@ CLAIMED = {
              "clusters and exactly-once iteration depend on hash values and are not decided.",
         tech="path-sensitive ownership (escape) analysis, per-path pairing counts, who-writes with constant evaluation (libTooling CFG facts)",
         ref="DESIGN.md §4 C05"),
+    "C10": dict(
+        level="proof",
+        text="Proof by abstract interpretation of the SSA form of Lib/mem/mem.c: for each of the 16 residue classes of the requested size "
+             "(size = 16*K + r, K>=0 symbolic — together all sizes) the returned pointer is base + a constant multiple of alignof(max_align_t), "
+             "the allocator request covers header+padding+size, header stores are disjoint and below the user data, get_header(returned) is the "
+             "allocation base, the header holds refs=1/size/dtor, m_mem_size returns the requested size; abstract execution of new/ref/unref "
+             "sequences shows the destructor runs exactly once on the user pointer before the base is freed exactly once, and nothing happens "
+             "while a reference remains. CFG rules add: who writes refs, destructor/free control-dependent on --refs == 0, NULL tolerated, no "
+             "direct libc allocator call in Lib/.",
+        tech="abstract interpretation over LLVM IR (affine forms a*K+b with residue case split) + CFG who-writes/guard rules",
+        ref="DESIGN.md §4 C10, §2.4, A.8",
+        note="Trusted base: clang-14 lowering + opt-14 mem2reg/simplifycfg, the transfer functions of engine/absint.py, the allocator returning "
+             "max_align_t-aligned memory, no unsigned wrap-around of size+header. The proof is about mem.c as compiled for this target (x86-64, "
+             "header 24 bytes, max alignment 16); 'returned to the configured allocator' assumes m_set_memhook is called before first use."),
 }
 
 NOT_APPLICABLE = {
